@@ -73,6 +73,15 @@ pub(crate) struct FlushWorker<T: Types> {
     /// `Relaxed` is sufficient because the actual data synchronization is
     /// provided by the `RwLock` on `PayloadCache`.
     done_seq: Arc<AtomicU64>,
+
+    /// Whether the most recent sync failed.
+    ///
+    /// While set, chunk files must not be removed: the purge record that made
+    /// them obsolete may not be durable yet.
+    sync_failed: bool,
+
+    /// Chunk files whose removal is postponed until a sync succeeds.
+    deferred_removals: Vec<String>,
 }
 
 impl<T: Types> FlushWorker<T> {
@@ -109,6 +118,8 @@ impl<T: Types> FlushWorker<T> {
             files: vec![file_entry],
             cache,
             done_seq,
+            sync_failed: false,
+            deferred_removals: Vec::new(),
         }
     }
 
@@ -187,6 +198,13 @@ impl<T: Types> FlushWorker<T> {
                             e
                         );
                     }
+                    self.sync_failed = res.is_err();
+                    if res.is_ok() {
+                        // Everything written so far is durable now, including
+                        // the purge records the postponed removals wait for.
+                        let paths = std::mem::take(&mut self.deferred_removals);
+                        self.remove_chunks(paths)?;
+                    }
                     res
                 } else {
                     Ok(())
@@ -262,12 +280,23 @@ impl<T: Types> FlushWorker<T> {
             }
             WorkerRequest::RemoveChunks { chunk_paths } => {
                 info!("FlushWorker: RemoveChunks: {:?}", chunk_paths);
-                for path in chunk_paths {
-                    std::fs::remove_file(path)?;
+                if self.sync_failed {
+                    // The flush that was to make the purge durable failed;
+                    // keep the files until a later sync succeeds.
+                    self.deferred_removals.extend(chunk_paths);
+                } else {
+                    self.remove_chunks(chunk_paths)?;
                 }
             }
         }
 
+        Ok(())
+    }
+
+    fn remove_chunks(&mut self, paths: Vec<String>) -> Result<(), io::Error> {
+        for path in paths {
+            std::fs::remove_file(path)?;
+        }
         Ok(())
     }
 
